@@ -2,7 +2,7 @@ SPECIFICATION Spec
 CONSTANTS
   CapFactor = 1
   Variant = "fixed"
-  MaxSteps = 7
+  MaxSteps = 6
   Ids = {1, 2}
   Eval <- MEval
   QWords <- MQWords
